@@ -233,6 +233,11 @@ def same(a, b):
         return True
     if type(a) is Decimal and type(b) is Decimal and a.is_nan() and b.is_nan():
         return True
+    if isinstance(a, enum.Enum) and isinstance(b, enum.Enum) and type(a) is not type(b):
+        # class-strict for enum members, as for dataclass instances and list/tuple: members of two
+        # different IntFlag/IntEnum/StrEnum classes are == in Python when their values are, but a member
+        # of another class (import-name collision) is not the original
+        return False
     if isinstance(a, (list, tuple)) and type(a) is type(b):
         return len(a) == len(b) and all(same(x, y) for x, y in zip(a, b))
     if type(a) is dict and type(b) is dict:
